@@ -160,8 +160,8 @@ def sequences(tier):
                 continue
             if n == 2 and tier == "quick" and (set(s) & heavy) and not all(x in heavy or x in light for x in s):
                 continue  # the many-path templates are paired with a few simple neighbours only in the quick tier
-            if n == 2 and tier == "quick" and len([x for x in s if x in heavy]) == 2:
-                continue
+            if n == 2 and len([x for x in s if x in heavy]) == 2:
+                continue  # two many-path templates in a row: the product of their paths, nothing new
             seqs.append(s)
     if tier == "thorough":
         core = [n for n in names if n not in ("ELIFNOELSE", "FOR2MIX", "PP", "IFELSE2", "ELIF2", "FORDOWN", "FORSTEP", "FORJ", "GOSUB2", "IFSS", "NEXTI", "FORIF", "FORLINE", "NEXTBARE", "STOP", "END", "SET", "IFLS", "IFSL", "ELIFSL", "IFEND", "FORVAR", "IFNUM", "IFNUMELSE", "ELIFNUM", "ELIFNUML", "FOR3LISTBARE", "FOR4LISTBARE", "FOR3LIST3", "FOR3BARELIST", "FORSYMBARE", "FORSYMDOWN", "FORSYMSTEP", "FORSYM2", "FORSYMIF", "FORSYMGOTO", "IFIFOR2L", "IFIFAND", "IFIFELSE", "ONGOTOTAIL2", "ONGOSUBTAIL", "IFONGOTOELSE", "GOSUBTAIL", "GOTOTAIL", "ELIFSLLL", "IFTHENGOTO", "IFTHENGOSUB2")]
